@@ -50,6 +50,7 @@ type jobResult struct {
 	funcs     map[string]int
 	witnesses []witness
 	stop      string
+	aborted   string
 	obligs    int
 	recorded  []sym.RecordedQuery
 }
@@ -404,6 +405,7 @@ func runJob(prog *sym.Program, job Job, spec *Spec, solver string, timeoutMs int
 	if job.H.Steps > 0 {
 		e.StepBudget = job.H.Steps
 	}
+	e.PathTimeout = 90 * time.Second
 	if job.H.MaxPaths > 0 {
 		e.MaxPaths = job.H.MaxPaths
 	}
@@ -468,6 +470,11 @@ func runJob(prog *sym.Program, job Job, spec *Spec, solver string, timeoutMs int
 			}
 			key := k + "|" + label
 			seenF[key]++
+			if pr.Out.Kind == sym.OutUnwind && seenF[key] >= 2 {
+				// a non-terminating path was found twice: every further path through the same loop costs a
+				// full time budget; the finding is reported, the rest of this job is not explored
+				e.Abort("non-termination finding " + label)
+			}
 			if seenF[key] > 3 { // keep a few witnesses per label
 				return
 			}
@@ -482,6 +489,7 @@ func runJob(prog *sym.Program, job Job, spec *Spec, solver string, timeoutMs int
 	s := e.Solver()
 	r.queries, r.sat, r.unsat, r.unknown, r.solverT = s.Queries, s.NSat, s.NUnsat, s.NUnk, s.Time
 	r.stop = e.StopReason()
+	r.aborted = e.Aborted()
 	r.obligs = e.ObligTotal
 	r.recorded = s.Recorded
 	for f, n := range e.FuncsHit {
